@@ -585,6 +585,17 @@ impl<K: KeyT> World<K> {
                 "ok".into()
             }
             ("intern", 3) => self.intern(p(1), &unhex(toks[2]), None, false, via),
+            // a long string given compactly: the prefix, padded with 'a' to the length (implementation-only
+            // streams; the model driver does not know this op)
+            ("internRep", 4) => {
+                let mut x = unhex(toks[2]);
+                let n = p(3);
+                if n < x.len() || n > (1 << 28) {
+                    return "bad-op".into();
+                }
+                x.resize(n, b'a');
+                self.intern(p(1), &x, None, false, via)
+            }
             ("internP", 3) => self.intern(p(1), &unhex(toks[2]), None, true, via),
             ("internS", 3) | ("internSP", 3) => {
                 let pi = p(2);
@@ -667,7 +678,9 @@ impl<K: KeyT> World<K> {
         let total: usize = self.slots.iter().map(|s| s.shadow.strs.len()).sum();
         self.stats.max_len = self.stats.max_len.max(total);
         self.ops_since_sweep += 1;
-        if mutating && (total <= 64 || self.ops_since_sweep >= 64) {
+        // (very long strings: a sweep compares every byte, so sweep every 8th op only)
+        let heavy = opname == "internRep";
+        if mutating && ((total <= 64 && !heavy) || self.ops_since_sweep >= if heavy { 8 } else { 64 }) {
             self.ops_since_sweep = 0;
             self.sweep();
         }
